@@ -1,7 +1,7 @@
-import AkVerif.Model.Xls
+import AkVerif.Lemmas.XlsSort
 /-!
 Helper lemmas for C18, fourth part: the coordinates `mkSheet` writes (`A1`, `B1`, …, `AA1`, …)
-are pairwise distinct.
+are pairwise distinct, and `_coord_sort_key` orders the cells of one row by column.
 -/
 namespace Xls
 open Ak
@@ -207,5 +207,163 @@ theorem nodup_mkSheetFrom : ∀ (rows : List (List Val)) (r0 : Nat),
 theorem nodup_mkSheet (rows : List (List Val)) :
     ((mkSheet rows).flatten.map fun x => x.coord).Nodup :=
   nodup_mkSheetFrom rows 0
+
+/-! ## the sort key of a coordinate; cells of one row are ordered by column -/
+
+theorem dropWhile_append_all {α : Type} (p : α → Bool) :
+    ∀ (xs ys : List α), (∀ x ∈ xs, p x = true) → (xs ++ ys).dropWhile p = ys.dropWhile p := by
+  intro xs
+  induction xs with
+  | nil => intro ys _; rfl
+  | cons x xs ih =>
+    intro ys h
+    simp only [List.cons_append, List.dropWhile_cons, h x (by simp), if_true]
+    exact ih ys (fun y hy => h y (by simp [hy]))
+
+theorem dropWhile_none {α : Type} (p : α → Bool) (ys : List α) (h : ∀ y ∈ ys, p y = false) :
+    ys.dropWhile p = ys := by
+  cases ys with
+  | nil => rfl
+  | cons y ys => simp [h y (by simp)]
+
+theorem coordColumn_letters_digits (l d : List Char) (hl : ∀ c ∈ l, c.isDigit = false)
+    (hd : ∀ c ∈ d, c.isDigit = true) : coordColumn (l ++ d) = l := by
+  unfold coordColumn
+  rw [List.reverse_append, dropWhile_append_all _ _ _ (fun x hx => hd x (by simpa using hx)),
+    dropWhile_none _ _ (fun y hy => hl y (by simpa using hy)), List.reverse_reverse]
+
+theorem coordKey_mkCoord (r c : Nat) :
+    coordKey (mkCoord r c) = ((colName c).length, colName c, r + 1) := by
+  have hcol : coordColumn (mkCoord r c) = colName c := by
+    unfold mkCoord
+    simp only [Nat.toString_eq_repr, Nat.toList_repr]
+    exact coordColumn_letters_digits _ _ (colName_letters c)
+      (fun x hx => Nat.isDigit_of_mem_toDigits (by decide) (by decide) hx)
+  unfold coordKey
+  rw [hcol]
+  have : (mkCoord r c).drop (colName c).length = Nat.toDigits 10 (r + 1) := by
+    unfold mkCoord
+    simp only [Nat.toString_eq_repr, Nat.toList_repr]
+    exact List.drop_left
+  rw [this, Nat.ofDigitChars_ten_toDigits]
+
+/-- shorter first, then Python's string order (the first two components of the sort key) -/
+def slt (s t : List Char) : Prop := s.length < t.length ∨ (s.length = t.length ∧ ltCps s t = true)
+
+theorem slt_trans (a b c : List Char) (h1 : slt a b) (h2 : slt b c) : slt a c := by
+  rcases h1 with h1 | ⟨h1, g1⟩ <;> rcases h2 with h2 | ⟨h2, g2⟩
+  · exact Or.inl (by omega)
+  · exact Or.inl (by omega)
+  · exact Or.inl (by omega)
+  · exact Or.inr ⟨by omega, ltCps_trans a b c g1 g2⟩
+
+theorem ltCps_append_last : ∀ (p : List Char) (a b : Char), a.toNat < b.toNat →
+    ltCps (p ++ [a]) (p ++ [b]) = true := by
+  intro p
+  induction p with
+  | nil => intro a b h; simp [ltCps, h]
+  | cons x xs ih => intro a b h; simp [ltCps, ih a b h]
+
+theorem ltCps_append_of_lt : ∀ (p q x y : List Char), p.length = q.length → ltCps p q = true →
+    ltCps (p ++ x) (q ++ y) = true := by
+  intro p
+  induction p with
+  | nil =>
+    intro q x y hl h
+    cases q with
+    | nil => simp [ltCps] at h
+    | cons _ _ => simp at hl
+  | cons a as ih =>
+    intro q x y hl h
+    cases q with
+    | nil => simp at hl
+    | cons b bs =>
+      simp only [List.cons_append, ltCps] at h ⊢
+      by_cases h1 : a.toNat < b.toNat
+      · simp [h1]
+      · by_cases h2 : b.toNat < a.toNat
+        · simp [h1, h2] at h
+        · simp only [h1, h2, if_false] at h ⊢
+          exact ih bs x y (by simpa using hl) h
+
+theorem colName_succ : ∀ (c : Nat), slt (colName c) (colName (c + 1)) := by
+  intro c
+  induction c using Nat.strongRecOn with
+  | _ c ih =>
+    by_cases h1 : c + 1 < 26
+    · rw [colName_lt c (by omega), colName_lt (c + 1) h1]
+      refine Or.inr ⟨rfl, ?_⟩
+      simp [ltCps, letter_toNat c (by omega), letter_toNat (c + 1) h1]
+    · by_cases h2 : c < 26
+      · have : c = 25 := by omega
+        subst this
+        exact Or.inl (by decide)
+      · rw [colName_ge c (by omega), colName_ge (c + 1) (by omega)]
+        by_cases h3 : c % 26 < 25
+        · have e1 : (c + 1) / 26 - 1 = c / 26 - 1 := by omega
+          have e2 : (c + 1) % 26 = c % 26 + 1 := by omega
+          rw [e1, e2]
+          refine Or.inr ⟨by simp, ltCps_append_last _ _ _ ?_⟩
+          rw [letter_toNat _ (by omega), letter_toNat _ (by omega)]
+          omega
+        · have e1 : (c + 1) / 26 - 1 = (c / 26 - 1) + 1 := by omega
+          have e2 : (c + 1) % 26 = 0 := by omega
+          have e3 : c % 26 = 25 := by omega
+          rw [e1, e2, e3]
+          rcases ih (c / 26 - 1) (by omega) with h | ⟨h, g⟩
+          · exact Or.inl (by simp; omega)
+          · exact Or.inr ⟨by simp; omega, ltCps_append_of_lt _ _ _ _ h g⟩
+
+theorem colName_mono (c c' : Nat) (h : c < c') : slt (colName c) (colName c') := by
+  induction c' with
+  | zero => omega
+  | succ n ih =>
+    by_cases hc : c = n
+    · subst hc; exact colName_succ c
+    · exact slt_trans _ _ _ (ih (by omega)) (colName_succ n)
+
+theorem ltKey_of_slt (s t : List Char) (n : Nat) (h : slt s t) :
+    ltKey (s.length, s, n) (t.length, t, n) = true := by
+  simp only [ltKey]
+  rcases h with h | ⟨h, g⟩
+  · simp [h]
+  · have e1 : ¬ s.length < t.length := by omega
+    have e2 : ¬ t.length < s.length := by omega
+    simp [e1, e2, g]
+
+/-- cells of one row: the sort key orders them by column -/
+theorem ltCoord_mkCoord (r c c' : Nat) : ltCoord (mkCoord r c) (mkCoord r c') = true ↔ c < c' := by
+  unfold ltCoord
+  rw [coordKey_mkCoord, coordKey_mkCoord]
+  constructor
+  · intro h
+    rcases Nat.lt_trichotomy c c' with h' | h' | h'
+    · exact h'
+    · subst h'; rw [ltKey_irrefl] at h; cases h
+    · have := ltKey_asymm _ _ (ltKey_of_slt _ _ (r + 1) (colName_mono c' c h'))
+      rw [h] at this; cases this
+  · intro h; exact ltKey_of_slt _ _ (r + 1) (colName_mono c c' h)
+
+/-- A ranged attribute whose source cells lie in one row (`r`, columns `cols`, at least two): the
+text is `<leftmost cell>:<rightmost cell>`. -/
+theorem rangeDescr_single_row (r : Nat) (cols : List Nat) (h2 : 2 ≤ cols.length) :
+    ∃ lo hi, lo ∈ cols ∧ hi ∈ cols ∧ (∀ c ∈ cols, lo ≤ c ∧ c ≤ hi) ∧
+      rangeDescr (sortCoords (cols.map (mkCoord r))) = mkCoord r lo ++ ':' :: mkCoord r hi := by
+  rcases rangeDescr_spec (cols.map (mkCoord r)) with ⟨h, _⟩ | ⟨c, h, _⟩ | ⟨_, lo', hi', ht, hlo, hhi, hall⟩
+  · have := congrArg List.length h; rw [List.length_map, List.length_nil] at this; omega
+  · have := congrArg List.length h; rw [List.length_map, List.length_singleton] at this; omega
+  · obtain ⟨lo, hlo1, hlo2⟩ := List.mem_map.mp hlo
+    obtain ⟨hi, hhi1, hhi2⟩ := List.mem_map.mp hhi
+    subst hlo2; subst hhi2
+    refine ⟨lo, hi, hlo1, hhi1, ?_, ht⟩
+    intro c hc
+    obtain ⟨g1, g2⟩ := hall (mkCoord r c) (List.mem_map.mpr ⟨c, hc, rfl⟩)
+    constructor
+    · rcases Nat.lt_or_ge c lo with h | h
+      · rw [(ltCoord_mkCoord r c lo).mpr h] at g1; cases g1
+      · exact h
+    · rcases Nat.lt_or_ge hi c with h | h
+      · rw [(ltCoord_mkCoord r hi c).mpr h] at g2; cases g2
+      · exact h
 
 end Xls
